@@ -495,6 +495,10 @@ def check_family(events):
     band = {}  # class -> names that used to be tolerated (in a base's list object, not registered by the base)
     prov = {}  # class -> {name key: where the obligation to accept it comes from}
     gap = {}  # class -> True when it, or an ancestor, has no `signals` of its own and several bases
+    inherit = {}  # class -> union over its whole MRO of every class's OWN `signals` (what a subclass inherits from it)
+    ownk = {}  # class -> its own names
+    anc = {}  # class -> all ancestors
+    mixin = set()  # ordinary classes (no metaclass): contribute names to subclasses, are not registered themselves
     findings, stats = [], {}
 
     def stat(k, n=1):
@@ -508,7 +512,7 @@ def check_family(events):
             m = set(own)
             l = set(own)
             for b in ev["bases"]:
-                m |= must.get(b, set())
+                m |= inherit.get(b, must.get(b, set()))
                 l |= may.get(b, set())
                 l |= {canon(x) for x in ev["base_attr"].get(b, [])}
             # Since the registered list is a fresh per-class list (own names + every MRO ancestor's), nothing outside
@@ -516,6 +520,13 @@ def check_family(events):
             # when the class was created) is only measured, no longer tolerated.
             band[c] = (l | m) - m
             must[c], may[c] = m, set(m)
+            inherit[c] = set(m)
+            ownk[c] = set(own)
+            anc[c] = set(ev["bases"]).union(*[anc.get(b, set()) for b in ev["bases"]])
+            if any(a in mixin for a in anc[c]):
+                stat("family_metaclass_class_with_ordinary_ancestor")
+                if any(a in mixin and a not in ev["bases"] for a in anc[c]):
+                    stat("family_metaclass_class_with_ordinary_ancestor_at_depth>=2")
             gap[c] = (ev["own"] is None and len(ev["bases"]) > 1) or any(gap.get(b) for b in ev["bases"])
             pv = {}
             for k in m:
@@ -523,6 +534,8 @@ def check_family(events):
                     pv[k] = "own-list"
                 elif any(k in {canon(x) for x in ev["base_attr"].get(b, [])} for b in ev["bases"]):
                     pv[k] = "list-of-a-direct-base"
+                elif all(a in mixin for a in anc[c] if k in ownk.get(a, ())):
+                    pv[k] = "own-list-of-an-ordinary-ancestor-not-visible-through-the-direct-bases"
                 elif any(gap.get(b) for b in ev["bases"]):
                     pv[k] = "inherited-via-class-without-own-list-and-several-bases"
                 else:
@@ -535,6 +548,17 @@ def check_family(events):
             stat("family_class:" + ev["how"])
             if len(ev["bases"]) > 1:
                 stat("family_class_multiple_bases")
+        elif t == "mixin":
+            own = {canon(x) for x in (ev["own"] or [])}
+            inherit[c] = set(own).union(*[inherit.get(b, set()) for b in ev["bases"]])
+            ownk[c] = own
+            anc[c] = set(ev["bases"]).union(*[anc.get(b, set()) for b in ev["bases"]])
+            mixin.add(c)
+            must[c], may[c] = set(), set()  # never registered: connect() on its own instances must be rejected
+            how[c] = "ordinary-class-unregistered"
+            lists[c] = ev.get("list")
+            order.append(c)
+            stat("family_ordinary_ancestor_classes")
         elif t == "plain":
             must[c], may[c] = set(), set()
             how[c] = "plain-unregistered"
